@@ -36,7 +36,7 @@ def edge_constraints(fn, rec, block):
         if hit is None:
             continue
         tg, vals, is_other = hit
-        de = rec.operand(t['discr'])
+        de = (rec.at(d) if hasattr(rec, 'at') else rec).operand(t['discr'])
         if is_other:
             out.append((de, ('notin', [v for v, _ in targets]), d))
         elif len(vals) == 1:
